@@ -211,5 +211,20 @@ pub fn run(ctx: &Ctx) -> Report {
         };
         check_pair(&mut d, &mut rep, &a, &b, i < 2);
     }
+    // pairs handed over by the search that runs when the function-level tie is broken (./check: the Lean-side
+    // differential FuncsDiff.lean found them on the TRANSLATED code): replayed on the real crate and judged
+    if let Ok(path) = std::env::var("VERIF_EXTRA_PAIRS") {
+        if let Ok(text) = std::fs::read_to_string(&path) {
+            for line in text.lines() {
+                let f: Vec<&str> = line.split_whitespace().collect();
+                if f.len() == 2 {
+                    if let (Some(a), Some(b)) = (unhex(f[0]), unhex(f[1])) {
+                        rep.count("extra_pairs_from_tie_search");
+                        check_pair(&mut d, &mut rep, &a, &b, false);
+                    }
+                }
+            }
+        }
+    }
     rep
 }
